@@ -243,7 +243,7 @@ CHECK_NAMES = {1: "rep_okb / cokb of the dumped representation", 2: "canon(rep) 
 
 def run(ctx):
     rng = ctx.rng
-    n = 300 if ctx.tier == "quick" else 4000
+    n = 220 if ctx.tier == "quick" else 4000
     if ctx.replay:
         rp = json.load(open(ctx.replay))
         cases = [rp["case"]] if rp.get("case") else corpus()
@@ -333,5 +333,5 @@ MANIFEST = {
              "print_is_rendered_tokens + parse_print_tokens (token-level printer/parser round trip for all values); print_parse_partial is conditional on the lexer."),
     "level_note": ("Partial: the byte-level print/parse statement is proved only up to the lexer (covered by evaluating the full Gallina parser and an independent Python parser on "
                    "every case). immutable.Map is abstracted (Get = first Equal key); encoding/gob is a hypothesis; the tie between model and Go is differential testing "
-                   "(300 quick / 4000 thorough cases, 13 seeded mutations all caught, see notes/C05.md)."),
+                   "(220 quick / 4000 thorough cases, 13 seeded mutations all caught, see notes/C05.md)."),
 }
